@@ -110,6 +110,13 @@ type simCall struct {
 	post      uint64
 }
 
+type infoLeg struct {
+	to        int
+	partition []byte
+	ok        bool // answered with success
+	loaded    bool // the answering node had the partition's raft group loaded when it answered
+}
+
 type simEvent struct {
 	at  time.Duration
 	seq uint64
@@ -162,6 +169,7 @@ type Sim struct {
 	onIO           func(n *simNode, group uuid.UUID, op string, before bool)
 	pauseHook      func(nodeId uint64, partition uuid.UUID, point string)
 	searchLegs     []searchLeg
+	infoLegs       []infoLeg // answered PartitionInfo lookups (C17)
 	rpcCount       map[string]int
 	faultsOn       bool
 	release        chan struct{}
@@ -1065,6 +1073,23 @@ func (s *Sim) deliver(c *simCall, tgt *simNode, inc int, isRaft bool) {
 			}
 			if c.method == "/anndb_pb.Search/SearchPartitions" {
 				s.recordSearchLeg(c, tgt, resp, err)
+			}
+			if c.method == "/anndb_pb.DataManager/PartitionInfo" {
+				var req pb.PartitionInfoRequest
+				proto.Unmarshal(c.req, &req)
+				loaded := false
+				if tgt.parts != nil {
+					if ds, ok := tgt.parts.DatasetManager.VerifDatasets(); ok {
+						for _, d := range ds {
+							for _, p := range d.Partitions {
+								if string(p.Id.Bytes()) == string(req.GetPartitionId()) && p.RaftLoaded {
+									loaded = true
+								}
+							}
+						}
+					}
+				}
+				s.infoLegs = append(s.infoLegs, infoLeg{to: tgt.idx, partition: req.GetPartitionId(), ok: err == nil, loaded: loaded})
 			}
 			if !tgt.alive || tgt.inc != inc {
 				s.lost(c)
